@@ -19,9 +19,13 @@ import (
 	"github.com/modelcontextprotocol/go-sdk/internal/verifx"
 )
 
-func c04BurstCase(dir string, n int) (obs, sig, msg string) {
+// how the shared context ends: "cancel" (context.WithCancel), "cancel-cause" (WithCancelCause with an
+// error of the caller's), "parent-cancel-cause" (an ancestor is cancelled with a cause, as errgroup
+// does), "timeout-cause" (WithTimeoutCause: the deadline passes).  The call returns the context's
+// error - ctx.Err() - in every case.
+func c04BurstCase(dir string, n int, how string) (obs, sig, msg string) {
 	fail := func(s, format string, a ...any) (string, string, string) {
-		return "", "c04 burst " + s, fmt.Sprintf(format, a...) + fmt.Sprintf(" [%s, %d calls cancelled together]", dir, n)
+		return "", "c04 burst " + s, fmt.Sprintf(format, a...) + fmt.Sprintf(" [%s, %d calls cancelled together, context ended by %s]", dir, n, how)
 	}
 	ctx := context.Background()
 	var mu sync.Mutex
@@ -76,7 +80,25 @@ func c04BurstCase(dir string, n int) (obs, sig, msg string) {
 		_, err := ssRef.CreateMessage(cctx, &CreateMessageParams{SystemPrompt: tag, MaxTokens: 1})
 		return err
 	}
-	shared, cancel := context.WithCancel(ctx)
+	var shared context.Context
+	var cancel func()
+	cause := errors.New("the user pressed stop")
+	switch how {
+	case "cancel":
+		shared, cancel = context.WithCancel(ctx)
+	case "cancel-cause":
+		c2, cc := context.WithCancelCause(ctx)
+		shared, cancel = c2, func() { cc(cause) }
+	case "parent-cancel-cause":
+		parent, cc := context.WithCancelCause(ctx)
+		c2, cancel2 := context.WithCancel(parent)
+		defer cancel2()
+		shared, cancel = c2, func() { cc(cause) }
+	case "timeout-cause":
+		c2, cancel2 := context.WithTimeoutCause(ctx, time.Hour, cause)
+		defer cancel2()
+		shared, cancel = c2, func() { time.Sleep(time.Hour); synctest.Wait() }
+	}
 	defer cancel()
 	errs := make([]error, n)
 	done := make([]bool, n)
@@ -99,12 +121,15 @@ func c04BurstCase(dir string, n int) (obs, sig, msg string) {
 	t0 := time.Now()
 	cancel()
 	synctest.Wait()
+	if how == "timeout-cause" {
+		t0 = time.Now() // (the deadline has just passed)
+	}
 	for i := 0; i < n; i++ {
 		switch {
 		case !done[i]:
 			return fail("caller-not-prompt", "call %d has not returned once everything settled after the cancellation (no time has passed)", i)
-		case !errors.Is(errs[i], context.Canceled):
-			return fail("wrong-error", "call %d returned %v, want the context's error", i, errs[i])
+		case !errors.Is(errs[i], shared.Err()) || errors.Is(errs[i], cause):
+			return fail("wrong-error", "call %d returned %q, want the context's error %q", i, errs[i], shared.Err())
 		}
 	}
 	if !time.Now().Equal(t0) {
@@ -158,13 +183,37 @@ func TestVerifC04Burst(t *testing.T) {
 						sig, msg = "c04 burst panic-or-leak", fmt.Sprintf("%v [%s]", r, desc)
 					}
 				}()
-				synctest.Test(t, func(t *testing.T) { obs, sig, msg = c04BurstCase(dir, n) })
+				synctest.Test(t, func(t *testing.T) { obs, sig, msg = c04BurstCase(dir, n, "cancel") })
 			}()
 			if sig != "" {
 				cases.Violate(idx, sig, msg, 3)
 				continue
 			}
 			cases.Record(idx, obs, 3, func() string { return desc })
+		}
+		// the ways a context can end (1 and 3 calls)
+		for _, how := range []string{"cancel-cause", "parent-cancel-cause", "timeout-cause"} {
+			for _, n := range []int{1, 3} {
+				idx, mine := cases.Next()
+				if !mine {
+					continue
+				}
+				desc := fmt.Sprintf("%s, %d calls, context ended by %s", dir, n, how)
+				var obs, sig, msg string
+				func() {
+					defer func() {
+						if r := recover(); r != nil && sig == "" {
+							sig, msg = "c04 burst panic-or-leak", fmt.Sprintf("%v [%s]", r, desc)
+						}
+					}()
+					synctest.Test(t, func(t *testing.T) { obs, sig, msg = c04BurstCase(dir, n, how) })
+				}()
+				if sig != "" {
+					cases.Violate(idx, sig, msg, 3)
+					continue
+				}
+				cases.Record(idx, obs+" "+how, 3, func() string { return desc })
+			}
 		}
 	}
 	env.Finish(res)
